@@ -1,3 +1,3 @@
 """Sidecar contracts.  MODULES lists every contract module; a contract serves
 the properties named in its `props`."""
-MODULES = ["contracts.c08", "contracts.c20", "contracts.c19", "contracts.c03", "contracts.c04", "contracts.c14", "contracts.c01", "contracts.c16"]
+MODULES = ["contracts.c08", "contracts.c20", "contracts.c19", "contracts.c03", "contracts.c04", "contracts.c14", "contracts.c01", "contracts.c16", "contracts.c18"]
